@@ -1,6 +1,7 @@
 package main
 
 import (
+	"bytes"
 	"encoding/json"
 	"math/rand"
 	"sort"
@@ -47,7 +48,7 @@ type hnswLat struct {
 }
 
 func (r *hnswLat) reset() {
-	r.idx, _ = comet.NewHNSWIndex(1, comet.L2Squared, r.m, 64, 64)
+	r.idx, _ = comet.NewHNSWIndex(1, comet.L2Squared, r.m, 64, 48)
 	r.t.ev("reset", E{"m": r.m})
 }
 
@@ -73,6 +74,23 @@ func (r *hnswLat) flush() {
 	r.idx.Flush()
 	e, _, _, _ := exportGraph(r.idx)
 	r.t.ev("flush", e)
+}
+
+// reload: serialise (which flushes the tombstones), read into a fresh index, continue on the reloaded object
+func (r *hnswLat) reload() {
+	var buf bytes.Buffer
+	_, werr := r.idx.WriteTo(&buf)
+	fresh, _ := comet.NewHNSWIndex(1, comet.L2Squared, r.m, 64, 48)
+	var rerr error
+	if werr == nil {
+		_, rerr = fresh.ReadFrom(bytes.NewReader(buf.Bytes()))
+	}
+	if werr == nil && rerr == nil {
+		r.idx = fresh
+	}
+	e, _, _, _ := exportGraph(r.idx)
+	e["ok"] = werr == nil && rerr == nil
+	r.t.ev("reload", e)
 }
 
 func (r *hnswLat) search(q int) {
@@ -266,7 +284,7 @@ func drvHNSW(args []string) error {
 		if err != nil {
 			return err
 		}
-		for _, ln := range lines {
+		for li, ln := range lines {
 			var ops []struct {
 				A   string `json:"a"`
 				ID  int    `json:"id"`
@@ -290,6 +308,25 @@ func drvHNSW(args []string) error {
 			for q := 1; q <= 5; q++ {
 				lat.search(q)
 			}
+			if (li+int(*cf.seed))%3 == 0 {
+				// reload and continue: the next insertions must build the same graph as on the source
+				lat.reload()
+				_, nodes, _, _ := exportGraph(lat.idx)
+				have := map[int]bool{}
+				for _, n := range nodes {
+					have[int(n.ID)] = true
+				}
+				added := 0
+				for id := 1; id <= len(hnswPos) && added < 2; id++ {
+					if !have[id] {
+						lat.add(id, 0)
+						added++
+					}
+				}
+				for q := 1; q <= 5; q += 2 {
+					lat.search(q)
+				}
+			}
 		}
 	}
 	for h := 0; h < *cf.count; h++ {
@@ -298,7 +335,13 @@ func drvHNSW(args []string) error {
 		tomb := map[int]bool{}
 		for step := 0; step < 18; step++ {
 			id := 1 + rng.Intn(len(hnswPos))
-			switch rng.Intn(8) {
+			switch rng.Intn(9) {
+			case 8:
+				lat.reload()
+				for d := range tomb {
+					delete(resident, d)
+				}
+				tomb = map[int]bool{}
 			case 0, 1, 2, 3:
 				if resident[id] {
 					continue
